@@ -860,6 +860,19 @@ theorem inplace_sparse_counterexample :
   have h0 := h 0 (by decide)
   norm_num [unnormInPlaceSp, unnormG, exM, exB, ofList, ofList2, sumTo] at h0
 
+/-- FULL-STRENGTH, repaired code (alias guard present): an in-place call returns what the out-of-place call returns,
+    for every model, belief, action and observation -/
+theorem inplace_guarded (m : POMDP) (b : Vec) (a o : Nat) :
+    unnormPtrG true true m b a o = unnormPtrG true false m b a o ∧
+    predictPtrG true true m b a = predictPtrG true false m b a := ⟨rfl, rfl⟩
+
+/-- the same statement for the code as it is (no guard) is false -/
+theorem inplace_unguarded_counterexample :
+    ¬ (∀ (m : POMDP) (b : Vec) (a o : Nat) (s1 : Nat), s1 < m.S →
+        unnormPtrG false true m b a o s1 = unnormPtrG false false m b a o s1) := by
+  intro h
+  exact inplace_generic_counterexample (fun s1 hs1 => h exM exB 0 0 s1 hs1)
+
 /-! ### the list-state versions run by the driver are the in-place models above -/
 
 theorem unnormInPlaceL_length (m : POMDP) (a o : Nat) : ∀ n st, (unnormInPlaceL m a o n st).length = st.length
